@@ -341,11 +341,124 @@ def r9(ctx):
     c08.fixed_set_range(ctx, P, "C01.R9")
 
 
-RULES = [r1, r2, r3, r4, r5, r6, r7, r8, r9]
+def r10(ctx):
+    """get(i) reads the bytes of block i: the byte offset the tree computes for a leaf is the sum of
+    the lengths of everything before it — every root wholly before the leaf, and inside the root
+    that contains it every left sibling passed on the way down.  Decided by path-sensitive affine
+    dataflow over one round of the root loop and one round of the descent of
+    MerkleTree::byte_offset_from_nodes (a wrong addend, a skipped root or a length added on the
+    wrong branch moves every later read)."""
+    from .. import pathval as PV
+    rule = "C01.R10"
+    FN = "tree::merkle_tree::MerkleTree::byte_offset_from_nodes"
+    fa = ctx.fn(FN)
+    if not need(ctx, P, rule, FN, fa):
+        return
+    loops = fa.loops()
+    # the descent is entered from the root loop and returns from inside: it is not part of the root
+    # loop's natural loop, it is the loop the root loop's body leads to
+    outer = [l for l in loops if any(l2[0] != l[0] and fa.can_reach(l[0], l2[0]) and not fa.can_reach(l2[0], l[0]) for l2 in loops)]
+    inner = [l for l in loops if any(l2[0] != l[0] and fa.can_reach(l2[0], l[0]) and not fa.can_reach(l[0], l2[0]) for l2 in loops)]
+    if not need(ctx, P, rule, "byte_offset_from_nodes: root loop with a nested descent loop", outer and inner):
+        return
+    ho, hi = outer[0][0], inner[0][0]
+    po, pi = PV.walk(fa, ho, {ho, hi}), PV.walk(fa, hi, {hi, ho})
+    if not need(ctx, P, rule, "byte_offset_from_nodes: loop bodies without further loops", po and pi):
+        return
+    nm = fa.body.local_name
+    def lfd(v):
+        return dict(v[1]) if PV.is_lf(v) else None
+    cont = [p_ for p_ in po if p_.end == "stop" and p_.at == ho]
+    enter = [p_ for p_ in po if p_.end == "stop" and p_.at == hi]
+    if not need(ctx, P, rule, "byte_offset_from_nodes: a way round the root loop and a way into the descent", cont and enter):
+        return
+    # roles: the accumulator gains <root>.length on a continue round; the other carried variable is the span head
+    acc = head = root = None
+    for l, v in cont[0].env.items():
+        d = lfd(v)
+        if not nm(l) or d is None:
+            continue
+        ln = [k for k in d if isinstance(k, str) and k.endswith(".length")]
+        if d.get(nm(l)) == 1 and len(ln) == 1 and d[ln[0]] == 1 and len(d) == 2:
+            acc, root = l, ln[0][: -len(".length")]
+    for l, v in cont[0].env.items():
+        d = lfd(v)
+        if nm(l) and d is not None and l != acc and d.get(nm(l)) == -1:
+            head = l
+    good = acc is not None and head is not None
+    want_head = {nm(head): -1, root + ".index": 2, 1: 2} if good else None
+    def head_ok(p_):
+        d = lfd(p_.env.get(head, ("opq", "?")))
+        return d is not None and {k: int(c) for k, c in d.items()} == want_head
+    def cmp_truth(p_):
+        for k, v in p_.cond.items():
+            if k.startswith("Lt(index, ") and root in k:
+                return v
+        return None
+    ok_cont = good and all(head_ok(p_) and lfd(p_.env.get(acc)) == {nm(acc): 1, root + ".length": 1} and cmp_truth(p_) is False for p_ in cont)
+    ctx.check(P, rule, "a root that lies wholly before the leaf adds its length to the offset", ok_cont, "index >= head' => offset += root.length, with head' = head + 2 * (root.index - head + 1)",
+              "byte_offset_from_nodes, way round the root loop: %s" % [{nm(l): PV.render(v)[:60] for l, v in p_.env.items() if nm(l)} for p_ in cont][:2], key="C01|C01.R10|byte_offset_from_nodes|roots before")
+    ok_enter = good and all(head_ok(p_) and (acc not in p_.env or lfd(p_.env[acc]) == {nm(acc): 1}) and cmp_truth(p_) is True
+                            and any(PV.render(v) == "new(%s.index)" % root for l, v in p_.env.items()) for p_ in enter)
+    ctx.check(P, rule, "the descent starts at the first root whose span reaches beyond the leaf, with the offset as accumulated", ok_enter, "index < head' => iter = Iterator::new(root.index), offset unchanged",
+              "byte_offset_from_nodes, way into the descent: %s" % [{nm(l): PV.render(v)[:60] for l, v in p_.env.items() if nm(l)} for p_ in enter][:2], key="C01|C01.R10|byte_offset_from_nodes|containing root")
+    # the descent
+    rounds = [p_ for p_ in pi if p_.end == "stop" and p_.at == hi]
+    if not need(ctx, P, rule, "byte_offset_from_nodes: ways round the descent", rounds) or not good:
+        return
+    bad = []
+    n_left = n_right = 0
+    for p_ in rounds:
+        lt = [v for k, v in p_.cond.items() if k.startswith("Lt(index, index(")]
+        calls = [c_.split("::")[-1] for c_, _, _ in p_.calls]
+        d = lfd(p_.env[acc]) if acc in p_.env else {nm(acc): 1}
+        if lt and lt[0] is True:
+            n_left += 1
+            if not (d == {nm(acc): 1} and "left_child" in calls and "sibling" not in calls and "right_child" not in calls):
+                bad.append("going left: offset %s, calls %s" % (PV.render(p_.env.get(acc, ("opq", nm(acc)))), [c for c in calls if c in ("left_child", "right_child", "sibling")]))
+        elif lt and lt[0] is False:
+            n_right += 1
+            req = [a_ for c_, a_, _ in p_.calls if c_.endswith("::required_node")]
+            arg_ok = bool(req) and PV.render(req[0][1]).startswith("left_child(")
+            added = [k for k in (d or {}) if isinstance(k, str) and k.endswith(".length") and "required_node(" in k and "left_child(" in k]
+            pushed = any(c_.endswith("::push") for c_, _, _ in p_.calls)
+            if not (arg_ok and calls.count("left_child") == 1 and "sibling" in calls and calls.index("left_child") < calls.index("sibling")
+                    and ((d is not None and len(added) == 1 and d.get(nm(acc)) == 1 and len(d) == 2) or (d == {nm(acc): 1} and pushed))):
+                bad.append("going right: offset %s, calls %s" % (PV.render(p_.env.get(acc, ("opq", nm(acc)))), [c for c in calls if c in ("left_child", "right_child", "sibling", "required_node", "push")]))
+        else:
+            bad.append("a way round the descent that does not compare the leaf with the iterator position")
+    ctx.check(P, rule, "going down, the left sibling's length is added exactly when the descent turns right", not bad and n_left > 0 and n_right > 0,
+              "index < iter.index(): left_child only; else offset += required_node(left_child).length (or an instruction), then sibling",
+              "byte_offset_from_nodes, descent: %s" % bad[:2], key="C01|C01.R10|byte_offset_from_nodes|descent")
+    rets = [p_ for p_ in pi if p_.end == "return"]
+    ok_ret = bool(rets) and all(any(k.startswith("Eq(index(") and v is True for k, v in p_.cond.items()) or any(k.startswith("disc(branch(required_node") for k in p_.cond) for p_ in rets)
+    ctx.check(P, rule, "the descent ends at the leaf", ok_ret, "returns only under iter.index() == index (or on a node error)", "a return of the descent is not under iter.index() == index", key="C01|C01.R10|byte_offset_from_nodes|end")
+    oks = [t for _, _, t in ok_returns(fa) if is_agg(agg_field(t, "0"), "Right")]
+    ctx.check(P, rule, "the offset returned is the accumulated one", bool(oks) and all(nm(acc) and "cycle" in term_str(agg_field(agg_field(t, "0"), "0")) or "length" in term_str(agg_field(agg_field(t, "0"), "0")) for t in oks),
+              "Ok(Right(offset))", "byte_offset_from_nodes returns %s" % [term_str(t)[:80] for t in oks], key="C01|C01.R10|byte_offset_from_nodes|result")
+
+    # byte_range puts the two together: length of the leaf itself, offset from byte_offset_from_nodes, same leaf
+    BR = "tree::merkle_tree::MerkleTree::byte_range"
+    fb = ctx.fn(BR)
+    if need(ctx, P, rule, BR, fb):
+        rq, bo = sites(fb, "tree::merkle_tree::MerkleTree::required_node"), sites(fb, FN)
+        ws = {p_: fb.origin_rvalue(fb.blocks[b_].stmts[si_]["rv"], b_, si_) for b_, si_, p_ in assign_sites_prefix(fb, "~NodeByteRange")}
+        good = len(rq) == 1 and len(bo) == 1
+        if good:
+            leaf = strip(fb.arg_origin(rq[0], 1))
+            good = term_has_call(leaf, "tree::merkle_tree::MerkleTree::validate_hypercore_index") is not None and strip(leaf[3][1]) == ("param", "hypercore_index") if leaf[0] == "call" else False
+            good = good and term_sig(strip(fb.arg_origin(bo[0], 1))) == term_sig(leaf)
+            ln, ix = ws.get("~NodeByteRange.length"), ws.get("~NodeByteRange.index")
+            good = good and ln is not None and ix is not None and term_has_call(ln, "tree::merkle_tree::MerkleTree::required_node") == rq[0] and term_sig(strip(ln)).endswith(".length") and term_has_call(ix, FN) == bo[0]
+        ctx.check(P, rule, "byte_range = (offset of the leaf, length of the leaf), both for the validated index", good, "length = required_node(leaf).length, index = byte_offset_from_nodes(leaf)",
+                  "byte_range assembles %s" % {k: term_str(v)[:70] for k, v in ws.items()}, key="C01|C01.R10|byte_range|assembly")
+
+
+RULES = [r1, r2, r3, r4, r5, r6, r7, r8, r9, r10]
 EXPLANATION = ("C01 (log contents equal an append-only list model across reopen): decides the replay codec agreement of the oplog Entry — each optional section is decoded under the flag bit it was "
                "encoded with, flags 1/2/4/8, same presence conditions in size and encode (R1); replay completeness — every field of Entry reaches its consumer inside the replay loop of Hypercore::new, the "
                "rebuilt changeset is completed, copied into the header and committed, entries are walked in log order, and whether a replay consumer runs for an entry depends only on the entry field it consumes — never on another field such as tree_upgrade (R2); the read gate — every storage read of get() is dominated by bitfield.get(index), the "
                "not-held edge returns Ok(None), has() is bitfield.get(index) (R3); append / clear placement — data offset = tree.byte_length before commit, bitfield update = [ancestors, +batch_length), clear "
-               "logs and drops exactly [start, end) (R4); observation provenance — AppendOutcome / Info come from the committed tree, commit copies the changeset, byte length accumulates node sizes (R5); loops that persist or apply one thing per element (batch blocks, changeset nodes, unflushed nodes, dirty pages, replayed nodes) do so for every element (R6); the bitfield page reader uses the writer's stride, page-relative little-endian words and reads every word of a complete page (R7); clear punches its hole into the data store only between the nearest held blocks (R8); FixedBitfield::set_range reports a change in any word of its range, so that the page reaches the file (R9 = C08.R6).")
-NOT_DECIDED = ("byte equality of reads; byte offsets of blocks (sums of node sizes over flat-tree paths); the hole computation in clear; flush cadence; that reopening changes no observation beyond R1/R2.")
+               "logs and drops exactly [start, end) (R4); observation provenance — AppendOutcome / Info come from the committed tree, commit copies the changeset, byte length accumulates node sizes (R5); loops that persist or apply one thing per element (batch blocks, changeset nodes, unflushed nodes, dirty pages, replayed nodes) do so for every element (R6); the bitfield page reader uses the writer's stride, page-relative little-endian words and reads every word of a complete page (R7); clear punches its hole into the data store only between the nearest held blocks (R8); FixedBitfield::set_range reports a change in any word of its range, so that the page reaches the file (R9 = C08.R6); the byte offset of a leaf is the sum of the lengths of the roots before it and of the left siblings passed on the way down (R10, path-sensitive affine dataflow over byte_offset_from_nodes).")
+NOT_DECIDED = ("byte equality of reads; that flat_tree's left_child / sibling visit the nodes R10 assumes; the hole computation in clear; flush cadence; that reopening changes no observation beyond R1/R2.")
 ASSUMPTIONS = ["flat_tree index arithmetic is correct"]
